@@ -152,3 +152,50 @@ PROPS["C04"] = {
     "level_text": "Kernel-checked: any finite schedule of sound, contracting sub-contractors (propagation with any agenda/ratio/impact) is sound and contracting; the hull of contracted slices covering the box (3BCID/ACID for any parameters) keeps every feasible point; accepted run-time checks mean what they say. Run time: every output box is inside its input, every exactly-feasible sample point survives, and the real CtcFwdBwd output contains the tightest single-pass HC4 box of the Lean model (identical on >99% of the cases).",
     "level_note": "Trusted: Lean kernel + Mathlib (axioms propext/Classical.choice/Quot.sound); harness/driver glue; sampled correspondence. A genuine defect found through this check (chi simplification, fixed 55600f68).",
 }
+# entry for props.py  (C17 — cell buffers behave as priority multisets over every operation history)
+def _c17_nontrivial(line, verdict):
+    lhs = line.split(" => ")[0]
+    return lhs.count(" P:") >= 2 and (" O" in lhs)
+
+PROPS["C17"] = {
+    "modules": ["IbexProofs.Props.C17"],
+    "harnesses": ["h_buf"],
+    "workloads": lambda tier, seed: (
+        [
+            # random histories (length <= 400) of the real cell buffers: CellStack, CellList (with capacities), CellHeap,
+            # Heap<Cell> x 9 cost functions, CellDoubleHeap x 8 second criteria x critpr 0/50/100 (+20, 80), CellBeamSearch x 5 beam sizes
+            {"harness": "h_buf", "tag": "cells", "args": ["c17", seed, 200 if tier == "quick" else 2500]},
+            # generic templates Heap<T>, SharedHeap<T> (driven directly: push_elt/pop_elt/erase_node/sort), DoubleHeap<T> (4 update-flag combinations x critpr)
+            {"harness": "h_buf", "tag": "tpl", "args": ["c17tpl", seed, 200 if tier == "quick" else 2500]},
+        ] + (
+            [{"harness": "h_buf", "tag": "ex", "args": ["c17ex", seed, 5]}] if tier == "quick" else
+            # every operation sequence of length 6 (7 for Heap<T> / SharedHeap<T>) over 3 cost values, incl. {-oo, 0, +oo}
+            [{"harness": "h_buf", "tag": "exT", "args": ["c17exT", seed, 6, "full"]},
+             {"harness": "h_buf", "tag": "exD", "args": ["c17exD", seed, 6, "full"]},
+             {"harness": "h_buf", "tag": "exC", "args": ["c17exC", seed, 6, "full"]}]
+        )),
+    "nontrivial": _c17_nontrivial,
+    "rule": "one line = one whole operation history of one buffer object (random: up to 400 operations + observers, costs from small palettes "
+            "(ties), +-oo, values equal to stored costs for contractions, loup / cost-function changes between operations; exhaustive: all "
+            "sequences of push(3 values) / pop / contract(2 values) / erase / flush of a fixed length, everything observed after each operation); "
+            "a history is non-trivial when it has at least two pushes and one pop; distinct = distinct lines",
+    "assumptions": [
+        "correspondence is sampled: the trace checker is run on the histories generated (random up to length 400, exhaustive up to length 5 (quick) / 6-7 (thorough))",
+        "costs are never NaN (the harness discards candidate cells / contraction values that would produce a NaN cost); the logged cost of a cell is the value returned by the real cost-function object",
+        "pop / top / minimum are only called on non-empty buffers (precondition of the C++ code)",
+        "destroyed cells are observed through a tracer object owned by each cell (Bxp property / element destructor); cell identity = tracer id + live pointer map",
+        "DoubleHeap::current_heap_id, the SharedHeap node structure and Heap::l are read through a `#define private public` include of the ibex headers in the harness only",
+    ],
+    "trusted": ["harness h_buf.cpp (logging of operations and answers)", "g++/libstdc++ std::push_heap/pop_heap/sort_heap/make_heap"],
+    "technique": "Lean 4 proof (multiset specification + trace checker; theorems by induction over histories of any length) + trace validation of the real C++ buffers",
+    "level_text": "Kernel-checked theorems: if the trace checker accepts a logged history (any length, any costs incl. ties and +-oo) then at every prefix "
+                  "stored + handed out + destroyed + erased = pushed as multisets of cell ids with no id pushed twice (nothing lost, duplicated or handed out twice; a popped cell was pushed before, "
+                  "is still stored and was not removed before); every pop/top of Heap/CellHeap/SharedHeap/DoubleHeap/CellDoubleHeap returns a stored cell of minimal cost for the criterion of the heap used "
+                  "(both heaps judged against the same multiset; pop1/pop2 use criterion 1/2; critpr=0 uses heap 1 only); CellBeamSearch pops the minimum of the sub-buffer that has priority; stack LIFO / list FIFO; "
+                  "minimum() is the least (first-criterion) cost = least objective lower bound over ALL stored cells (all three heaps of the beam search); contract(v) destroys exactly the cells with cost > v (strict) and keeps exactly those <= v; "
+                  "flush destroys everything; size/empty agree; push is refused exactly when a bounded stack/list is full; the two internal heaps of a double heap hold the stored cells; an accepted dump of an internal binary heap is a permutation of the stored cells "
+                  "in heap order, hence its root is minimal; the specification itself sorts (every complete drain is a cost-sorted permutation, and one exists). "
+                  "Correspondence: the checker is run on histories of the real classes (all cost functions, critpr 0/20/50/80/100, beam sizes 1/2/3/5/12, capacities), never prescribing a tie-break.",
+    "level_note": "Trusted: Lean kernel + Mathlib, axioms propext/Classical.choice/Quot.sound; harness, line protocol and driver glue; the correspondence is sampled "
+                  "(random + bounded-exhaustive), not proved for the C++ code. Not covered: NaN costs, copy constructors of Heap/DoubleHeap, beam size 0.",
+}
